@@ -88,11 +88,82 @@ def check_spec(h: Harness, site: str, spec: Spec, b: Built, usable: bool = True)
     # level B: the implementation's own table solves the distance equations (hence is exact)
     h.holds(site, "distance-not-a-fixpoint", ["prop_fixpoint", line_spec, dist],
             f"distanceToTerminal is not a solution of the minimum-depth equations for {sx(line_spec)}", sx(line_spec))
+    check_exactness(h, site, spec, b, g)
     h.count(f"classes={len(spec.classes)}")
     h.count("productive" if g.get_min_tree_depth() < 1000000 else "unproductive")
     if spec.expansion:
         h.count("expansion-mode")
     return g
+
+
+def oracle_min_depths(spec: Spec, alts: dict[int, list[int]], registered: set[int], allow_empty: bool, K: int):
+    """Independent specification: least depth of a derivable program per class symbol, by
+    enumeration over the depth bound (tree-depth mode).  `allow_empty`: the honest language, in
+    which un-annotated lists and ListSizeBetween(0, .) lists may be empty."""
+    from functools import lru_cache
+
+    @lru_cache(maxsize=None)
+    def der(t, k: int) -> bool:
+        if isinstance(t, str):
+            return True
+        kind = t[0]
+        if kind == "cls":
+            c = spec.classes[t[1]]
+            if t[1] in alts:
+                return any(der(("cls", p), k) for p in alts[t[1]])
+            if c.abstract:
+                return False
+            return k >= 1 and all(der(_freeze(ft), k - 1) for _, ft in c.fields)
+        if kind == "list":
+            return True if allow_empty else der(t[1], k)
+        if kind == "tuple":
+            return all(der(x, k) for x in t[1:])
+        if kind == "union":
+            return any(der(x, k) for x in t[1:])
+        if kind == "ann":
+            mh = t[2]
+            if not isinstance(mh, str) and mh[0] == "listSize":
+                return True if (allow_empty and mh[1] == 0) else der(t[1][1], k)
+            if not isinstance(mh, str) and mh[0] == "depListSize":
+                return True if allow_empty else der(t[1][1], k)
+            return der(t[1], k)
+        raise ValueError(t)
+
+    out = {}
+    for i in sorted(registered):
+        out[i] = next((k for k in range(K + 1) if der(("cls", i), k)), None)
+    return out
+
+
+def _freeze(t):
+    if isinstance(t, (list, tuple)):
+        return tuple(_freeze(x) for x in t)
+    return t
+
+
+def check_exactness(h: Harness, site: str, spec: Spec, b: Built, g):
+    """reported minimum depth == depth of the shallowest derivable program (independent oracle)"""
+    if spec.expansion:
+        return
+    alts = {b.index[p]: [b.index[c] for c in cs] for p, cs in g.alternatives.items()}
+    registered = {b.index[c] for c in g.all_nodes if c in b.index}
+    K = len(spec.classes) + 2
+    honest = oracle_min_depths(spec, alts, registered, True, K)
+    nonempty = oracle_min_depths(spec, alts, registered, False, K)
+    for i in sorted(registered):
+        rep = g.distanceToTerminal[b.classes[i]]
+        rep = None if rep >= 1000000 else rep
+        h.seen(f"exact:{gram.spec_sx_str(spec)}:{i}", nontrivial=rep is not None and rep >= 2)
+        if rep == honest[i]:
+            continue
+        replay = [gram.spec_sx_str(spec), i]
+        if rep == nonempty[i] and honest[i] is not None and (rep is None or honest[i] < rep):
+            h.fail("extract_grammar", "minimum-is-upper-bound-with-possibly-empty-list",
+                   f"class {spec.classes[i].name}: reported minimum depth {rep} but a program of depth {honest[i]} exists (a list field left empty)", replay)
+        else:
+            h.fail(site, "reported-minimum-not-shallowest",
+                   f"class {spec.classes[i].name}: reported minimum depth {rep}, shallowest derivable program has depth {honest[i]} "
+                   f"({nonempty[i]} with non-empty lists)", replay)
 
 
 def shipped(h: Harness):
